@@ -280,6 +280,16 @@ Qed.
 Lemma surface_ok : api_surface_check = true.
 Proof. vm_compute. reflexivity. Qed.
 
+Lemma api_surface_extra_ok : api_surface_extra_check = true.
+Proof. vm_compute. reflexivity. Qed.
+
+Lemma surface_extra_lifted : forall f, In f gen_funcs -> param_ptr_tracked_ok f = true /\ promoted_method_ok f = true.
+Proof.
+  pose proof api_surface_extra_ok as H. unfold api_surface_extra_check in H.
+  apply andb_true_iff in H. destruct H as [H1 H2]. rewrite forallb_forall in H1, H2.
+  intros f Hf. split; [apply H1 | apply H2]; exact Hf.
+Qed.
+
 Lemma closed_world_ok : api_closed_world_check = true.
 Proof. vm_compute. reflexivity. Qed.
 
